@@ -26,10 +26,17 @@ type directedCfg struct {
 	rng      *rand.Rand
 	released map[int]bool
 	idleAdv  int
+	// pre: every other attempt also holds a task back *before* its first acquisition of the
+	// candidate (at H1 / H2) until the other task has arrived at its own: a task that needs the
+	// other one's first lock for a moment on its way (RemoveRemoteDevice takes the device lock
+	// before it gets to the registry clean-up) would otherwise never get there while the first one
+	// is parked holding it (seed C17-h)
+	pre         bool
+	preReleased map[int]bool
 }
 
 func newDirected(c simrt.LockCycle, seed uint64) *directedCfg {
-	return &directedCfg{cyc: c, rng: rand.New(rand.NewPCG(seed, fnv64(c.Key()))), released: map[int]bool{}}
+	return &directedCfg{cyc: c, rng: rand.New(rand.NewPCG(seed, fnv64(c.Key()))), released: map[int]bool{}, pre: seed%2 == 1, preReleased: map[int]bool{}}
 }
 
 // directedOverride: the build-stream draws a directed run fixes.
@@ -38,20 +45,28 @@ func directedOverride() map[string]uint32 {
 }
 
 //go:norace
-func (d *directedCfg) holdsBack(s *simrt.Sched, t *simrt.Task) bool {
+func (d *directedCfg) holdsBack(s *simrt.Sched, t *simrt.Task) bool { return d.phase(s, t) != 0 }
+
+// phase: 2 = t is about to make the second acquisition of the candidate, 1 = (pre) the first one
+//
+//go:norace
+func (d *directedCfg) phase(s *simrt.Sched, t *simrt.Task) int {
 	if d.released[t.ID] {
-		return false
+		return 0
 	}
-	site, held, ok := s.LockIntent(t)
-	if !ok {
-		return false
-	}
-	for _, h := range held {
-		if (site == d.cyc.S1 && h == d.cyc.H1) || (site == d.cyc.S2 && h == d.cyc.H2) {
-			return true
+	if site, held, ok := s.LockIntent(t); ok {
+		for _, h := range held {
+			if (site == d.cyc.S1 && h == d.cyc.H1) || (site == d.cyc.S2 && h == d.cyc.H2) {
+				return 2
+			}
 		}
 	}
-	return false
+	if d.pre && !d.preReleased[t.ID] {
+		if site, ok := s.LockSite(t); ok && (site == d.cyc.H1 || site == d.cyc.H2) {
+			return 1
+		}
+	}
+	return 0
 }
 
 // directedPick chooses the next task (or advances the clock) and records the decision in the
@@ -84,7 +99,11 @@ func (w *World) directedPick(en []*simrt.Task, cur *simrt.Task, at time.Time, ad
 		// everything that can run is held back: let go (if the candidate is real, each of the
 		// tasks now blocks on the lock the other one holds)
 		for _, t := range paused {
-			d.released[t.ID] = true
+			if d.phase(w.S, t) == 1 {
+				d.preReleased[t.ID] = true
+			} else {
+				d.released[t.ID] = true
+			}
 		}
 		if len(paused) > 1 {
 			w.Probe("directed-both-sides-held-back")
